@@ -16,6 +16,13 @@ Sub-checks (all cases are plain data; DendroPy objects are built inside the func
            append a column to every row, delete a column from every row), score the SAME matrix object again on the
            same tree and on a fresh tree; every score must equal the oracle on the edited data and the score of a
            freshly built matrix + tree holding the same data.
+  subset   @given.  Scoring a selection of columns: taxon_state_sets_map(char_indices=...) with the indices given as a
+           list, tuple or range - repeated columns (bootstrap replicates), any order - fed to fitch_down_pass with
+           weights and a per-character list.  The map's state-set lists must follow char_indices position by
+           position (repeats included); score and per-character list must equal the oracle computed over the
+           selected columns in the given order with the given weights.  (One-shot iterators are not generated: the
+           unchanged library walks char_indices once per taxon, so a generator gives every taxon after the first an
+           empty list.)
   concat   @given.  Multi-alphabet route: 2-3 StandardCharacterMatrix partitions coded over DIFFERENT state alphabets
            (new_standard_state_alphabet("01"), ("012"), ("0123"), ("3210"), ("23"), ...) on one namespace, joined with
            StandardCharacterMatrix.concatenate (cells keep the state objects of their own alphabets).  The concatenated
@@ -49,10 +56,16 @@ CONFIG = {
              "appended or deleted) and re-scored on the same and on a fresh tree over 2-5 steps; non-trivial = a "
              "re-score after a shape-keeping edit, with a gap flag already used before, whose expected score differs "
              "from the previous step's.  "
+             "subset: char_indices as list/tuple/range with repeats and any order (bootstrap replicates, "
+             "permutations, descending ranges) x weights over the selection; non-trivial = the expected per-character "
+             "list differs from what the sorted duplicate-free selection would give.  "
              "concat: 2-3 standard partitions over different alphabets (symbol sets 01, 012, 0123, 3210, 23, 10, "
              "0-9, ab, ba0) joined by StandardCharacterMatrix.concatenate; non-trivial = >= 2 distinct alphabets, a gap "
              "or missing symbol in columns of two different alphabets, and >= 1 change."),
     "assumptions": [
+        "char_indices is passed as a re-iterable (list, tuple, range) only: the unchanged library iterates it once "
+        "per taxon, so a one-shot iterator leaves every taxon after the first with an empty list (observed, not "
+        "asserted either way)",
         "taxa carried by internal nodes or the seed node (with or without a row in the matrix) do not take part: the "
         "score is the minimum over assignments to ALL internal nodes given the cells of the leaves only (the "
         "statement; also what the unchanged library does on such trees); about 40 % of the generated trees carry "
@@ -728,6 +741,103 @@ def check_edits(ctx, case):
 
 
 # ---------------------------------------------------------------------------
+# sub-check: column selections (char_indices)
+# ---------------------------------------------------------------------------
+
+def selection_of(sel):
+    """case data -> (the indices as a plain list, the object handed to the library)"""
+    if sel["as"] == "range":
+        r = range(sel["start"], sel["stop"], sel["step"])
+        return list(r), r
+    idx = list(sel["idx"])
+    return idx, (tuple(idx) if sel["as"] == "tuple" else list(idx))
+
+
+def check_subset(ctx, case):
+    from dendropy.model import parsimony
+    spec, rooting, m, sel, weights = case["spec"], case["rooting"], case["m"], case["sel"], case["weights"]
+    gam_arg = m["gam"]
+    gam = eff_gam(gam_arg)
+    n = len(m["rows"])
+    nchar = len(m["rows"][0])
+    idx, arg = selection_of(sel)
+    if not idx or min(idx) < 0 or max(idx) >= nchar or (weights is not None and len(weights) != len(idx)):
+        raise runner.HarnessError("bad selection in %r" % (case,))
+    ns, taxa, _ = build_ns(n, m, spec)
+    tree = build_tree(spec, ns, taxa, rooting)
+    mat = build_matrix(m, ns, taxa)
+    rt = snap(ctx, tree, "subset base")
+    rdeg, ideg = degree_profile(rt)
+    if rdeg != (2 if rooting == "rooted" else 3) or (ideg - set([2])):
+        raise runner.HarnessError("generator produced a tree outside the domain: %r" % (case,))
+    tri = "" if rooting == "rooted" else "_trifurcating_seed"
+    desc = lambda: "type=%s tree=%s rows=%r char_indices=%r weights=%r gaps_as_missing=%r" % (
+        m["dtype"], rt.canon(ordered=True), m["rows"], arg, weights, gam_arg)
+
+    # oracle: the selected columns, in the given order, repeats included
+    picked = {"dtype": m["dtype"], "rows": ["".join(r[i] for i in idx) for r in m["rows"]]}
+    changes = [e[0] for e in expected_changes(rt, picked, gam)]
+    want_list = weighted(changes, weights)
+    want = sum(want_list)
+
+    kw = {} if gam_arg is None else {"gaps_as_missing": gam_arg}
+    full = mat.taxon_state_sets_map(**kw)
+    tsm = mat.taxon_state_sets_map(char_indices=arg, **kw)
+    for i in range(len(taxa)):
+        t = taxa[i]
+        if t not in full:
+            continue
+        got_sets = [set(x) for x in tsm[t]]
+        want_sets = [set(full[t][j]) for j in idx]
+        ctx.check(got_sets == want_sets,
+                  "taxon_state_sets_map(char_indices) lists the selected columns position by position",
+                  "C16.subset_map_positions",
+                  lambda: "taxon %s: got %r want %r (full map %r); %s" % (t.label, got_sets, want_sets, full[t], desc()))
+    for attr in (None, "state_sets"):
+        t3 = build_tree(spec, ns, taxa, rooting)
+        lst = []
+        got = parsimony.fitch_down_pass(t3.postorder_node_iter(), state_sets_attr_name=attr,
+                                        taxon_state_sets_map=tsm, weights=weights, score_by_character_list=lst)
+        ctx.check(got == want, "score over a column selection equals the weighted minimum over the selected columns",
+                  "C16.subset_score_minimal" + tri,
+                  lambda: "got %r want %r (minima of the selected columns %r); %s" % (got, want, changes, desc()))
+        ctx.check(lst == want_list and sum(lst) == got,
+                  "per-character list over a column selection follows the selection position by position",
+                  "C16.subset_per_char" + tri, lambda: "got %r want %r; %s" % (lst, want_list, desc()))
+    # consistency with the whole matrix: entry k is weight k times the score of column idx[k]
+    lfull = []
+    call = call_score(build_tree(spec, ns, taxa, rooting), mat, gam_arg, None, False)
+    parsimony.fitch_down_pass(build_tree(spec, ns, taxa, rooting).postorder_node_iter(), state_sets_attr_name=None,
+                              taxon_state_sets_map=full, score_by_character_list=lfull)
+    ctx.check(call[0] == sum(lfull) and want_list == weighted([lfull[j] for j in idx], weights),
+              "selection scores are the whole-matrix per-character scores of the selected columns",
+              "C16.subset_vs_full" + tri, lambda: "whole matrix per character %r, selection expects %r; %s" % (
+                  lfull, want_list, desc()))
+
+    # -- bookkeeping
+    ctx.cls("subset.as:" + sel["as"])
+    rep_ = len(set(idx)) < len(idx)
+    unordered = any(idx[k] > idx[k + 1] for k in range(len(idx) - 1))
+    if rep_:
+        ctx.cls("subset.repeated_columns")
+    if unordered:
+        ctx.cls("subset.not_ascending")
+    if rep_ and len(idx) == nchar:
+        ctx.cls("subset.bootstrap_replicate")
+    if not rep_ and not unordered:
+        ctx.cls("subset.sorted_duplicate_free")
+    ctx.cls("subset.weights:" + ("none" if weights is None else "uniform" if len(set(weights)) == 1 else "varied"))
+    same_if_normalised = weighted([e[0] for e in expected_changes(
+        rt, {"dtype": m["dtype"], "rows": ["".join(r[i] for i in sorted(set(idx))) for r in m["rows"]]}, gam)],
+        None if weights is None else weights[:len(set(idx))])
+    if same_if_normalised != want_list:
+        ctx.cls("subset.order_or_repeats_matter")
+        ctx.nontrivial(["subset", rt.canon(ordered=True), m, sel, weights])
+    count_internal_taxa(ctx, "subset", spec, n, [m])
+    ctx.sample("subset:" + sel["as"], case)
+
+
+# ---------------------------------------------------------------------------
 # sub-check: matrices mixing state alphabets (concatenate)
 # ---------------------------------------------------------------------------
 
@@ -864,7 +974,7 @@ def check_final(ctx, case):
     ctx.sample("final", case)
 
 
-SUBCHECKS = {"score": check_score, "history": check_history, "final": check_final, "concat": check_concat,
+SUBCHECKS = {"score": check_score, "history": check_history, "final": check_final, "concat": check_concat, "subset": check_subset,
              "edits": check_edits}
 
 
@@ -928,10 +1038,10 @@ def draw_extra_rows(draw, m, k, always=None):
 
 
 @st.composite
-def matrices(draw, n, max_chars, unambiguous=False, dtypes=None):
+def matrices(draw, n, max_chars, unambiguous=False, dtypes=None, min_chars=1):
     dtype = draw(st.sampled_from(dtypes or DTYPES))
     T = TYPES[dtype]
-    nchar = draw(st.integers(1, max_chars))
+    nchar = draw(st.integers(min_chars, max_chars))
     cols = []
     for c in range(nchar):
         k = draw(st.integers(2, 3))
@@ -1034,6 +1144,39 @@ def edit_cases(draw, max_leaves, max_chars):
 
 
 @st.composite
+def subset_cases(draw, max_leaves, max_chars):
+    spec, rooting, n, kint = draw(trees(max_leaves))
+    m = draw_extra_rows(draw, draw(matrices(n, max_chars, min_chars=2)), kint)
+    m["weights"] = None
+    nchar = len(m["rows"][0])
+    kind = draw(st.sampled_from(["list", "list", "tuple", "range"]))
+    if kind == "range":
+        start = draw(st.integers(0, nchar - 1))
+        step = draw(st.sampled_from([1, 1, 2, -1, -1, -2]))
+        if step > 0:
+            stop = draw(st.integers(start + 1, nchar))
+        else:
+            stop = draw(st.integers(-1, start - 1))
+        sel = {"as": "range", "start": start, "stop": stop, "step": step}
+        size = len(range(start, stop, step))
+    else:
+        mode = draw(st.sampled_from(["any", "any", "bootstrap", "bootstrap", "permutation", "ascending"]))
+        col = st.integers(0, nchar - 1)
+        if mode == "bootstrap":
+            idx = draw(st.lists(col, min_size=nchar, max_size=nchar))
+        elif mode == "permutation":
+            idx = list(draw(st.permutations(list(range(nchar)))))
+        elif mode == "ascending":
+            idx = sorted(draw(st.sets(col, min_size=1)))
+        else:
+            idx = draw(st.lists(col, min_size=1, max_size=nchar + 3))
+        sel = {"as": kind, "idx": idx}
+        size = len(idx)
+    weights = draw(st.one_of(st.none(), st.lists(st.integers(0, 5), min_size=size, max_size=size)))
+    return {"spec": spec, "rooting": rooting, "m": m, "sel": sel, "weights": weights}
+
+
+@st.composite
 def concat_cases(draw, max_leaves, max_chars):
     spec, rooting, n, kint = draw(trees(max_leaves))
     k = draw(st.integers(2, 3))
@@ -1067,8 +1210,10 @@ def run(ctx):
     n_final = 600 if quick else 6000
     n_concat = 1000 if quick else 8000
     n_edits = 1200 if quick else 10000
+    n_subset = 1200 if quick else 10000
     runner.run_given(ctx, "score", score_cases(max_leaves, max_chars), check_score, n_score // ctx.nshards)
     runner.run_given(ctx, "history", history_cases(max_leaves, max_chars), check_history, n_hist // ctx.nshards)
     runner.run_given(ctx, "final", final_cases(max_leaves, max_chars), check_final, n_final // ctx.nshards)
     runner.run_given(ctx, "concat", concat_cases(max_leaves, max_chars), check_concat, n_concat // ctx.nshards)
     runner.run_given(ctx, "edits", edit_cases(max_leaves, max_chars), check_edits, n_edits // ctx.nshards)
+    runner.run_given(ctx, "subset", subset_cases(max_leaves, max_chars), check_subset, n_subset // ctx.nshards)
